@@ -36,6 +36,10 @@ func nullyValue(t *rapid.T, depth int) *ref.V {
 
 func draw(t *rapid.T) Case {
 	c := gen.WithEmptyName
+	if gen.OneIn(t, 150, "bulk") {
+		d, _, m := gen.Bulk(t)
+		return Case{Doc: d.Text(false), Patch: m.Text(false)}
+	}
 	var doc *ref.V
 	if gen.OneIn(t, 4, "anyroot") {
 		doc = c.Value(3).Draw(t, "docv")
